@@ -453,7 +453,7 @@ def _idxcell(ctx, cfg, prog, mod):
                                      'does not depend on the duplicate tolerance (default_duplicate_tolerance() / default_tolerance()): cells narrower than the tolerance make a '
                                      'near-duplicate in the next-but-one cell invisible to the duplicate query'),
                    site='%s:%d' % (b.file, t.line))
-    ctx.floor('constructions of an insertion-time duplicate index', 3, n, cfg)
+    ctx.floor('constructions of an insertion-time duplicate index', 1, n, cfg)
 
 
 def _seedall(ctx, cfg, prog, mod):
